@@ -157,4 +157,164 @@ theorem tie_sqlx_manager :
     sqlxConnManagerVar = ["connManager = syncx.NewResourceManager()"] ∧
     sqlxConnManagerUses = ["getCachedSqlConn: connManager.GetResource(server, func)"] := by decide
 
+/-! ### Round 4: the functions `Take` / `doTake` call on the property's path, the constructors' wiring -/
+
+/-- the rows of `RM` under `Cfg.cacheTake`: which statement of core/collection/cache.go each stands for. -/
+def takeStmt : RM.PC → String
+  | .p0 | .g0 => "call c.lock.Lock()"          -- doGet
+  | .p1 | .g1 => "mapget c.data[key]"
+  | .p2 | .g2 => "call c.lock.Unlock()"
+  | .p3 | .g3 => "if ok {"
+  | .g4 => "call fetch()"
+  | .g5 => "if e != nil {"
+  | .g6 => "call c.lock.Lock()"                 -- Set → SetWithExpire
+  | .g7 => "mapset c.data[key] = value"
+  | .g8 => "call c.lock.Unlock()"
+  | _ => "(singleflight)"
+
+/-- `Cache.doGet` (rows p0…p2 in front of the flight and g0…g2 inside it): lookup of `c.data[key]` under `c.lock`
+(a `sync.Mutex`; the model's read lock only adds schedules), `ok` returned as read. -/
+theorem tie_collectionDoGet : collectionDoGetShape =
+    [takeStmt .p0, "defer{", takeStmt .p2, "}", takeStmt .p1, "if ok {", "call c.lruCache.add(key)", "}",
+     "return value, ok"] := by decide
+
+/-- `Cache.Set` / `SetWithExpire` (rows g6…g8): the store into `c.data[key]` under `c.lock`, key and value as passed. -/
+theorem tie_collectionSet : collectionSetShape = ["call c.SetWithExpire(key, value, c.expire)"] ∧
+    collectionSetWithExpireShape =
+      [takeStmt .g6, takeStmt .g7, "call c.lruCache.add(key)", takeStmt .g8,
+       "call c.unstableExpiry.AroundDuration(expire)", "call c.timingWheel.SetTimer(key, value, expiry)"] := by decide
+
+/-- `Cache.Take` row by row (replaces the bare string list): front lookup p0…p3, closure g0…g5, store g6…g8. -/
+theorem tie_collectionTake_rows : collectionTakeShape =
+    ["call c.doGet(key)", takeStmt .p3, "call c.stats.IncrementHit()", "return val, nil", "}",
+     "var fresh",
+     "func{", "call c.doGet(key)", takeStmt .g3, "return val, nil", "}",
+     takeStmt .g4, takeStmt .g5, "return nil, e", "}",
+     "call c.Set(key, v)", "return v, nil", "}",
+     "call c.barrier.Do(key, func)", "if err != nil {", "return nil, err", "}",
+     "if fresh {", "call c.stats.IncrementMiss()", "return val, nil", "}",
+     "call c.stats.IncrementHit()", "return val, nil"] := by decide
+
+/-- `NewCache` wires a flight group of its own and an empty map into every Cache (per instance: nothing shared). -/
+theorem tie_newCache_fields :
+    collectionNewCacheFields =
+      ["data: make(map[string]any)", "expire: expire", "lruCache: emptyLruCache", "barrier: syncx.NewSingleFlight()",
+       "unstableExpiry: mathx.NewUnstable(expiryDeviation)"] := by decide
+
+/-- `NewNode` stores the flight group, the redis handle and the not-found error it was given (the group may be shared
+between nodes: sqlc / monc pass one per process). -/
+theorem tie_newNode_fields :
+    cacheNodeNewNodeFields.filter (fun f => f = "barrier: barrier" || f = "rds: rds" || f = "errNotFound: errNotFound") =
+      ["rds: rds", "barrier: barrier", "errNotFound: errNotFound"] ∧ cacheNodeNewNodeFields.length = 9 := by decide
+
+/-- both entry points of `doTake` forward the caller's `val`, `key` and `query` unchanged. -/
+theorem tie_cacheNode_entry_points :
+    cacheNodeTakeShape = ["call context.Background()", "call c.TakeCtx(context.Background(), val, key, query)", "return <call>"] ∧
+    cacheNodeTakeCtxShape = ["func{", "call c.SetCtx(ctx, key, v)", "return <call>", "}",
+                             "call c.doTake(ctx, val, key, query, func)", "return <call>"] ∧
+    cacheNodeTakeWithExpireShape = ["call context.Background()",
+                                    "call c.TakeWithExpireCtx(context.Background(), val, key, query)", "return <call>"] ∧
+    cacheNodeTakeWithExpireCtxShape = ["call c.aroundDuration(c.expiry)", "func{", "call query(v, expire)", "return <call>", "}",
+                                       "func{", "call c.SetWithExpireCtx(ctx, key, v, expire)", "return <call>", "}",
+                                       "call c.doTake(ctx, val, key, func, func)", "return <call>"] ∧
+    cacheNodeSetCtxShape = ["call c.aroundDuration(c.expiry)",
+                            "call c.SetWithExpireCtx(ctx, key, val, c.aroundDuration(c.expiry))", "return <call>"] := by decide
+
+/-- `doGetCache` (row g1 of `Cfg.doTake`): redis GET of the same key; empty → `errNotFound` (a miss), the placeholder →
+`errPlaceholder`, else the cached row is unmarshalled into the caller's `v`. -/
+theorem tie_doGetCache : cacheNodeDoGetCacheShape =
+    ["call c.stat.IncrementTotal()", "call c.rds.GetCtx(ctx, key)", "if err != nil {", "call c.stat.IncrementMiss()",
+     "return err", "}", "if len(data) == 0 {", "call c.stat.IncrementMiss()", "return c.errNotFound", "}",
+     "call c.stat.IncrementHit()", "if data == notFoundPlaceholder {", "return errPlaceholder", "}",
+     "call c.processCache(ctx, key, data, v)", "return <call>"] := by decide
+
+/-- the whole closure of `doTake` (error classification included): cache read; placeholder → not found; other error →
+returned, no query; miss → `query`; not found → placeholder written, not found; error → returned; else `cacheVal`. -/
+theorem tie_doTake_closure :
+    cacheNodeDoTakeShape.takeWhile (fun t => t ≠ "call jsonx.Marshal(v)") =
+      ["func{", "call c.doGetCache(ctx, key, v)", "if err != nil {",
+       "if errors.Is(err, errPlaceholder) {", "return nil, c.errNotFound", "}",
+       "else{", "if !errors.Is(err, c.errNotFound) {", "return nil, err", "}", "}",
+       "call query(v)", "if errors.Is(err, c.errNotFound) {", "call c.setCacheWithNotFound(ctx, key)",
+       "if err != nil {", "call logger.Error(err)", "}", "return nil, c.errNotFound", "}",
+       "else{", "if err != nil {", "call c.stat.IncrementDbFails()", "return nil, err", "}", "}",
+       "call cacheVal(v)", "if err != nil {", "call logger.Error(err)", "}", "}"] := by decide
+
+/-! ### Round 4: decision conditions translated to Lean (extract/c07.go `c07Branches`) and compared with the models'
+branching for ALL values of their atoms — a negated or swapped condition breaks these even if the skeleton survives. -/
+
+/-- `createCall`: exit 0 (`return c, true`: join) iff the key is in `g.calls` — the model's row `l1` branches the same way. -/
+theorem tie_createCall_branch (s : SF.St) (t : Tid) (x : Nat) (h : s.pc t = .l1) :
+    (SF.step s t x).map (fun s' => s'.pc t) =
+      some (if createCallBranch (s.calls (s.key t)).isSome = 0 then .w0 else .n0) := by
+  unfold SF.step; rw [h]
+  cases hc : s.calls (s.key t) <;> simp [createCallBranch, upd]
+theorem tie_createCall_exits : createCallBranchExits = ["return c, true", "return c, false"] := by decide
+
+/-- `DoEx`: `done` (joiner) takes the exit that reports `fresh = false` (row `w2`), the leader the one with `true` (`r0`);
+`Do` branches the same way. -/
+theorem tie_doEx_branch : ∀ done, doExBranchExits[doExBranch done]? = some (SF.stmt (if done then .w2 else .r0))
+    ∧ doBranch done = doExBranch done := by decide
+/-- … and those rows record exactly these flags. -/
+theorem tie_doEx_fresh_model (s : SF.St) (t : Tid) (x : Nat) :
+    (s.pc t = .w2 → ((SF.step s t x).bind (·.rets.head?)).map (·.fresh) = some false) ∧
+    (s.pc t = .r0 → ((SF.step s t x).bind (·.rets.head?)).map (·.fresh) = some true) := by
+  constructor <;> intro h <;> unfold SF.step <;> rw [h] <;> simp
+
+/-- `lockedGroup.Do`: key registered → wait and `goto begin` (rows b2, b3 → b0), else `makeCall` (c0). -/
+theorem tie_lockedDo_branch (s : LC.St) (t : Tid) (x : Nat) (h : s.pc t = .b1) :
+    (LC.step s t x).map (fun s' => s'.pc t) =
+      some (if lockedDoBranch (s.m (s.key t)).isSome = 0 then .b2 else .c0) := by
+  unfold LC.step; rw [h]
+  cases hc : s.m (s.key t) <;> simp [lockedDoBranch, upd]
+theorem tie_lockedDo_exits : lockedDoBranchExits = ["goto begin", "return lg.makeCall(key, fn)"] := by decide
+theorem tie_lockedDo_retry (s : LC.St) (t : Tid) (x : Nat) (h : s.pc t = .b3) (hw : s.wg (s.reg t) = 0) :
+    (LC.step s t x).map (fun s' => s'.pc t) = some .b0 := by
+  unfold LC.step; rw [h]; simp [hw, upd]
+
+/-- the closure of `GetResource` / `Cache.Take`: found → exit 0 (the stored instance, no load); load failed → exit 1
+(the error, nothing stored); else exit 2 (store, return the new instance) — rows g3 and g5 branch the same way. -/
+theorem tie_closure_branch_g3 (s : RM.St) (t : Tid) (x : Nat) (h : s.pc t = .g3) :
+    (RM.step s t x).map (fun s' => s'.pc t) =
+      some (if getResourceClosureBranch (s.found t) false = 0 then .m2 else .g4) := by
+  unfold RM.step; rw [h]
+  cases hf : s.found t <;> simp [getResourceClosureBranch, upd]
+theorem tie_closure_branch_g5 (s : RM.St) (t : Tid) (x : Nat) (h : s.pc t = .g5) :
+    (RM.step s t x).map (fun s' => s'.pc t) =
+      some (if getResourceClosureBranch false (x == 0) = 1 then .m2 else .g6) := by
+  unfold RM.step; rw [h]
+  by_cases hx : x = 0 <;> simp [getResourceClosureBranch, upd, hx]
+theorem tie_closure_exits :
+    getResourceClosureBranchExits = ["return resource, nil", "return nil, err", "return resource, nil"] ∧
+    collectionTakeClosureBranchExits = ["return val, nil", "return nil, e", "return v, nil"] ∧
+    (∀ a b, collectionTakeClosureBranch a b = getResourceClosureBranch a b) := by decide
+
+/-- what distinguishes the users (`Cfg`): `Cache.Take` has an exit in front of the flight (`pre`, row p3 branches on
+`found` like exit 0 of `collectionTakeBranch`) and no type assertion after it; `GetResource` starts with the flight and
+asserts `val.(io.Closer)`; `doTake` starts with the flight and asserts `val.([]byte)`. -/
+theorem tie_cfg_users :
+    (∀ e f, collectionTakeBranch true e f = 0) ∧ (∀ e f, collectionTakeBranch false e f ≠ 0) ∧
+    collectionTakeBranchExits = ["return val, nil", "return nil, err", "return val, nil", "return val, nil"] ∧
+    Cfg.cacheTake = { pre := true, asrt := false } ∧
+    getResourceShape.head? = some "func{" ∧ getResourceBranchExits = ["return nil, err", "return val.(io.Closer), nil"] ∧
+    (∀ e, getResourceBranch e = if e then 0 else 1) ∧
+    Cfg.getResource = { pre := false, asrt := true } ∧
+    cacheNodeDoTakeShape.head? = some "func{" ∧ cacheNodeDoTakeShape.getLast? = some "return <call>" ∧
+    cacheNodeDoTakeShape.contains "call jsonx.Unmarshal(val.([]byte), v)" = true ∧
+    Cfg.doTake = { pre := false, asrt := true } := by decide
+theorem tie_front_lookup_p3 (s : RM.St) (t : Tid) (x : Nat) (h : s.pc t = .p3) :
+    (RM.step s t x).map (fun s' => s'.pc t) =
+      some (if collectionTakeBranch (s.found t) false false = 0 then .idle else .l0) := by
+  unfold RM.step; rw [h]
+  cases hf : s.found t <;> simp [collectionTakeBranch, upd]
+
+/-- the wait group is incremented by exactly 1 (and released by one `Done`): `Wait` passes iff the leader is past `Done`. -/
+theorem tie_wgAdd : sfWgAdd = [1] ∧ lcWgAdd = [1] := by decide
+theorem tie_wgAdd_model (s : SF.St) (l : LC.St) (t : Tid) (x : Nat) :
+    (s.pc t = .n1 → (SF.step s t x).map (fun s' => s'.wg (s.reg t)) = some (s.wg (s.reg t) + 1)) ∧
+    (l.pc t = .c1 → (LC.step l t x).map (fun s' => s'.wg (l.reg t)) = some (l.wg (l.reg t) + 1)) := by
+  constructor <;> intro h
+  · unfold SF.step; rw [h]; simp [upd]
+  · unfold LC.step; rw [h]; simp [upd]
+
 end GoZero.C07.Tie
